@@ -199,3 +199,122 @@ Proof.
   destruct (unsup_final_graph fmax thr one d labels g (min_k + i) efin gdens0 Hb Hfmax Hd US g2 cmm2 HA) as (g' & F1 & F2).
   exists (k_order g), g'. split; assumption.
 Qed.
+
+(* ------------------------------------------------------------------------------------------------ *)
+(* C13 / C04 for the result of the whole fit                                                          *)
+(* ------------------------------------------------------------------------------------------------ *)
+
+(* the forest clauses of Props/C13_pipeline.v, for a graph [g] whose final competition removed [ord] *)
+Definition sup_forest_clauses (fmax : R) (k : nat) (labels : list nat) (d e : nat -> nat -> R)
+           (g : @knn R) (ord : list nat) (mn mx : R) : Prop :=
+  let n := length labels in
+  let pred := fun q => nth q (k_pred g) None in
+  let root := fun q => nth q (k_root g) 0%nat in
+  let cost := fun q => nth q (k_cost g) 0 in
+  let dens := fun q => nth q (k_dens g) 0 in
+  let plabel := fun q => nth q (k_plabel g) 0%nat in
+  let label := fun q => nth q labels 0%nat in
+  let adj := fun q => nth q (k_adj g) [] in
+  k_label g = labels /\
+  Permutation ord (seq 0 n) /\
+  (forall q, (q < n)%nat -> 1 <= dens q <= 1000) /\
+  (exists adj0 : list (list nat),
+     knn_graph fmax k n d e dens mn mx adj0 /\
+     k_adj g = plateau_sup Rltb 0 n (k_dens g) adj0) /\
+  (forall q, (q < n)%nat ->
+     match pred q with
+     | None => root q = q /\ cost q = dens q /\ plabel q = label q
+     | Some p => (p < n)%nat /\ before ord p q /\ In q (adj p) /\
+                 root q = root p /\ cost q = Rmin (cost p) (dens q) /\
+                 dens q - 1 < cost q /\ plabel q = plabel p /\ label p = label q
+     end) /\
+  (forall q, (q < n)%nat ->
+     exists r j, (j < n)%nat /\ (r < n)%nat /\ reaches pred q r j /\ pred r = None /\
+       (forall r', root_of pred q r' -> r' = r) /\
+       root q = r /\ dens q - 1 < cost q /\ cost q <= cost r /\ cost r = dens r /\
+       dens q < dens r + 1 /\
+       plabel q = label r /\ label q = label r) /\
+  (forall q, (q < n)%nat -> plabel q = label q).
+
+Definition unsup_forest_clauses (fmax : R) (k : nat) (labels : list nat) (d e : nat -> nat -> R)
+           (g : @knn R) (ord : list nat) (mn mx : R) : Prop :=
+  let n := length labels in
+  let pred := fun q => nth q (k_pred g) None in
+  let root := fun q => nth q (k_root g) 0%nat in
+  let cost := fun q => nth q (k_cost g) 0 in
+  let dens := fun q => nth q (k_dens g) 0 in
+  let clabel := fun q => nth q (k_clabel g) 0%nat in
+  let adj := fun q => nth q (k_adj g) [] in
+  let nplat := fun q => nth q (k_nplat g) 0%nat in
+  let isroot := fun q => match pred q with None => true | Some _ => false end in
+  k_label g = labels /\
+  Permutation ord (seq 0 n) /\
+  (forall q, (q < n)%nat -> 1 <= dens q <= 1000) /\
+  (exists adj0 : list (list nat),
+     knn_graph fmax k n d e dens mn mx adj0 /\
+     (forall i, (i < n)%nat -> length (nth i adj0 []) = k) /\
+     (k_adj g, k_nplat g) = plateau_unsup Rltb 0 k n (k_dens g) adj0 (repeat 0%nat n)) /\
+  (forall q, (q < n)%nat ->
+     match pred q with
+     | None => root q = q /\ cost q = dens q
+     | Some p => (p < n)%nat /\ before ord p q /\ In q (firstn (nplat p + k) (adj p)) /\
+                 root q = root p /\ cost q = Rmin (cost p) (dens q) /\
+                 dens q - 1 < cost q /\ clabel q = clabel p
+     end) /\
+  (forall q, (q < n)%nat ->
+     exists r j, (j < n)%nat /\ (r < n)%nat /\ reaches pred q r j /\ pred r = None /\
+       (forall r', root_of pred q r' -> r' = r) /\
+       root q = r /\ dens q - 1 < cost q /\ cost q <= cost r /\ cost r = dens r /\
+       dens q < dens r + 1 /\
+       clabel q = clabel r) /\
+  k_nclusters g = length (filter isroot (seq 0 n)) /\
+  length (filter isroot ord) = k_nclusters g /\
+  (forall i, (i < k_nclusters g)%nat -> clabel (nth i (filter isroot ord) 0%nat) = i) /\
+  (forall r, (r < n)%nat -> pred r = None -> (clabel r < k_nclusters g)%nat) /\
+  (forall r r', (r < n)%nat -> (r' < n)%nat -> pred r = None -> pred r' = None ->
+     clabel r = clabel r' -> r = r') /\
+  (forall i, (i < k_nclusters g)%nat -> exists r, (r < n)%nat /\ pred r = None /\ clabel r = i) /\
+  (forall q, (q < n)%nat -> (clabel q < k_nclusters g)%nat).
+
+Theorem knn_sup_fit_forest :
+  forall (fmax thr one eps : R) (d : nat -> nat -> R) (dq : list (nat -> R)) (vlabels : list nat)
+         (ep eq : nat -> nat -> nat -> R) (labels : list nat) (max_k : nat) (efin : nat -> nat -> R),
+    let n := length labels in
+    0 < fmax ->
+    (forall i j, (i < n)%nat -> (j < n)%nat -> i <> j -> 0 <= d i j < fmax) ->
+    length vlabels = length dq ->
+    (1 <= max_k)%nat ->
+    forall (accs : list R) (best : nat) (g : @knn R) (c mn mx : R),
+    knn_sup_fit_core ROps fmax thr one eps 1000 d dq vlabels ep eq labels max_k efin = (accs, best, g, (c, mn, mx)) ->
+    exists pre ord, k_order g = pre ++ ord /\ sup_forest_clauses fmax best labels d efin g ord mn mx.
+Proof.
+  intros fmax thr one eps d dq vlabels ep eq labels max_k efin n Hfmax Hd Hlen Hmk accs best g c mn mx Hfit.
+  destruct (knn_sup_fit_selects fmax thr one eps d dq vlabels ep eq labels max_k efin Hfmax Hd Hlen Hmk
+              accs best g (c, mn, mx) Hfit) as (_ & _ & _ & _ & _ & _ & Hfin).
+  destruct (Hfin 0) as (pre & g' & E1 & E2).
+  pose proof (knn_sup_final_forest fmax thr one 0 best labels d efin Hfmax Hd g' c mn mx E1) as T.
+  exists pre, (k_order g'). subst g. unfold with_order, sup_forest_clauses. knn_cbn. split; [reflexivity|exact T].
+Qed.
+
+Theorem unsup_fit_forest :
+  forall (fmax thr one : R) (d : nat -> nat -> R) (ep : nat -> nat -> nat -> R) (labels : list nat)
+         (min_k max_k : nat) (efin : nat -> nat -> R),
+    let n := length labels in
+    0 < fmax -> INR n < fmax ->
+    (forall i j, (i < n)%nat -> (j < n)%nat -> i <> j -> 0 <= d i j < fmax) ->
+    (1 <= min_k <= max_k)%nat -> (max_k <= n - 1)%nat ->
+    exists (cuts : list R) (best : nat) (g : @knn R) (c mn mx : R) (pre ord : list nat),
+      unsup_fit ROps fmax thr one 1000 d ep labels min_k max_k efin = Some (cuts, best, g, (c, mn, mx)) /\
+      (min_k <= best <= max_k)%nat /\
+      k_order g = pre ++ ord /\ unsup_forest_clauses fmax best labels d efin g ord mn mx.
+Proof.
+  intros fmax thr one d ep labels min_k max_k efin n Hfmax Hn Hd Hk Hmk.
+  destruct (unsup_fit_selects fmax thr one d ep labels min_k max_k efin Hfmax Hn Hd Hk Hmk)
+    as (cuts & best & g & [[c mn] mx] & Hfit & H). cbv zeta in H.
+  destruct H as (_ & He & _ & _ & _ & Hb & _ & _ & Hfin).
+  destruct (Hfin 0) as (pre & g' & E1 & E2).
+  assert (Hbk : (best <= n - 1)%nat) by lia.
+  pose proof (unsup_final_forest fmax thr one 0 best labels d efin Hbk Hfmax Hd g' c mn mx E1) as T.
+  exists cuts, best, g, c, mn, mx, pre, (k_order g'). split; [exact Hfit|]. split; [lia|].
+  subst g. unfold with_order, unsup_forest_clauses. knn_cbn. split; [reflexivity|exact T].
+Qed.
